@@ -107,6 +107,26 @@ def gen_configs(ctx, quick):
         rng.shuffle(rest)
         windows = must + rest[:30]
     extra += windows
+    # client authentication with EVERY key type of /repo/tests, per version, in both role assignments
+    # (usable: RSA and ECDSA everywhere, EdDSA and rsa-pss from TLS 1.2 on, DSA up to TLS 1.2)
+    ckeys = [('client-rsa', 1, 4), ('rsa', 1, 4), ('client-ecdsa', 1, 4), ('ecdsa384', 1, 4), ('ecdsa521', 1, 4),
+             ('client-ed25519', 3, 4), ('ed448', 3, 4), ('rsapss', 3, 4), ('client-dsa', 1, 3)]
+    cauth = []
+    for ck, lo, hi in ckeys:
+        for v in (1, 2, 3, 4):
+            if lo <= v <= hi:
+                cauth.append(dict(base, server_key='ecdsa' if ck.startswith('client-rsa') or ck == 'rsa' else 'rsa',
+                                  tl_min=1, tl_max=v, ossl_min=1, ossl_max=4, client_auth=True, client_key=ck,
+                                  payloads=[0, 1, 3000]))
+    extra += cauth
+    # DHE over a group whose prime has ODD byte length (129 bytes): odd-length premaster secret for the
+    # TLS 1.0/1.1 PRF split; several runs each, the secrets differ
+    for v in (1, 2, 3):
+        for fam, key, ostr in (('dhe_rsa', 'rsa', 'kDHE+aRSA'), ('dhe_dsa', 'dsa', 'kDHE+aDSS')):
+            for rep_ in range(2 if quick else 6):
+                extra.append(dict(base, server_key=key, tl_min=v, tl_max=v, ossl_min=v, ossl_max=v, dh='odd1032',
+                                  tl_keyExchangeNames=[fam], ossl_ciphers=ostr + ':@SECLEVEL=0', family=fam, rep=rep_,
+                                  payloads=[0, 1, 3000]))
     # groups
     for g, on in (('secp256r1', 'prime256v1'), ('secp384r1', 'secp384r1'), ('secp521r1', 'secp521r1'), ('x25519', 'X25519'), ('x448', 'X448')):
         for mx in (4, 3):
@@ -284,6 +304,29 @@ def run(ctx):
             env, ccf, scf, vlib.boollit(done), obs.get('tl_version') or 0, obs.get('tl_suite') or 0,
             vlib.optlit(alpn_id, vlib.zlit), vlib.boollit(strict)))
         rows.append(r)
+    # ---- key derivation functions on the interoperability path against OpenSSL's own (`openssl kdf`):
+    # TLS 1.0 PRF (MD5+SHA-1), TLS 1.2 PRFs, HKDF-Extract / -Expand / Expand-Label, secret lengths of both parities
+    kcases = O.kdf_cases(ctx.rng, quick)
+    with Pool(vlib.NPROC) as pool:
+        kres = pool.map(O.kdf_case, kcases, chunksize=8)
+    kbad = {}
+    for r in kres:
+        c = r['case']
+        slen = len(c['secret']) // 2
+        if 'not_covered' in r:
+            not_covered.append('kdf %s: openssl kdf refused: %s' % (c['fn'], r['not_covered'][:80]))
+            continue
+        ctx.count('kdf-vs-openssl', 1, [(c['fn'], slen % 2, min(slen, 64), c['n'] > 48)])
+        if r.get('error') or not r.get('equal'):
+            key = 'kdf-differs:%s:secret-%s' % (c['fn'], 'odd' if slen % 2 else 'even')
+            kbad[key] = kbad.get(key, 0) + 1
+            if kbad[key] == 1 and ctx.violation(key, '%s(secret of %d bytes, %d bytes out) differs from OpenSSL: tlslite %s... OpenSSL %s... %s'
+                                                % (c['fn'], slen, c['n'], r.get('mine'), r.get('ref'), r.get('error', '')),
+                                                {'kdf_case': c, 'result': {k: v for k, v in r.items() if k != 'case'},
+                                                 'how': 'PYTHONPATH=/repo:/verif/harness python -c "import c07_ossl; print(c07_ossl.kdf_case(<kdf_case>))"'}):
+                found = True
+    ctx.cov['kdf_points'] = len(kcases)
+    ctx.log('kdf functions vs openssl kdf: %d points, %d differ' % (len(kcases), sum(kbad.values())))
     ctx.cov['programs'] = len(rows)
     ctx.cov['completed'] = ncomplete
     ctx.cov['not_covered'] = sorted(set(not_covered))[:80]
@@ -306,6 +349,10 @@ def run(ctx):
                     obs.get('tl_version'), obs.get('tl_suite') or 0, obs.get('tl_alpn')),
                 obs.get('tl_outcome'), obs.get('ossl_outcome')))
             vkey = 'spec-disagrees:%s:%s:%s' % (cfg['role'], cfg['server_key'], 'failed' if not obs['completed'] else 'choice')
+            if cfg.get('client_auth'):
+                vkey += ':client-auth-%s:tls%d' % (cfg['client_key'], min(cfg['tl_max'], cfg['ossl_max']))
+            if cfg.get('dh'):
+                vkey += ':dh-%s:tls%d' % (cfg['dh'], min(cfg['tl_max'], cfg['ossl_max']))
             seen_spec[vkey] = seen_spec.get(vkey, 0) + 1
             if seen_spec[vkey] > 1:
                 continue                              # one replay file per failure class; the count goes to the evidence
